@@ -87,7 +87,9 @@ Definition str_incr (now : Z) (key : bytes) (delta : Z) : M Z :=
         match value_int cur with
         | None => fail EValueType
         | Some n =>
-            let nv := wrap64 (n + delta) in
+            (* the overflow test of Incr: the wrapped sum moved the wrong way *)
+            if negb (in_int64 (n + delta)) then fail EValueType else
+            let nv := n + delta in
             str_update now key (AInt nv) ;;; ret nv
         end
     | Err e => fail e
